@@ -175,7 +175,7 @@ Fixpoint timeout_method (e : err) : bool :=
   | Leaf _ LDeadline => true
   | Leaf _ (LErrno n) => errno_timeout n
   | Leaf _ (LOpaqueErrno _ p) => en_timeout p
-  | Wrap _ (WPathError _ _) c | Wrap _ (WSyscallError _) c => timeout_method c
+  | Wrap _ (WPathError _ _) c | Wrap _ (WSyscallError _) c | Wrap _ (WOpError _ _ _ _) c => timeout_method c
   | _ => false
   end.
 
